@@ -222,6 +222,7 @@ impl Prog {
 }
 
 #[derive(Debug)]
+#[cfg_attr(feature = "verif_hooks", derive(Clone))]
 struct Branch {
     pc: usize,
     ix: usize,
@@ -229,12 +230,17 @@ struct Branch {
 }
 
 #[derive(Debug)]
+#[cfg_attr(feature = "verif_hooks", derive(Clone))]
 struct Save {
     slot: usize,
     value: usize,
 }
 
+#[cfg_attr(feature = "verif_hooks", derive(Clone))]
 struct State {
+    /// Whole copies of `saves`, one per backtrack branch (verification shadow monitor)
+    #[cfg(feature = "verif_hooks")]
+    shadow: Option<Vec<Vec<usize>>>,
     /// Saved values indexed by slot. Mostly indices to s, but can be repeat values etc.
     /// Always contains the saves of the current state.
     saves: Vec<usize>,
@@ -263,6 +269,8 @@ struct State {
 impl State {
     fn new(n_saves: usize, max_stack: usize, options: u32) -> State {
         State {
+            #[cfg(feature = "verif_hooks")]
+            shadow: None,
             saves: vec![usize::MAX; n_saves],
             stack: Vec::new(),
             oldsave: Vec::new(),
@@ -279,6 +287,10 @@ impl State {
             let nsave = self.nsave;
             self.stack.push(Branch { pc, ix, nsave });
             self.nsave = 0;
+            #[cfg(feature = "verif_hooks")]
+            if let Some(shadow) = self.shadow.as_mut() {
+                shadow.push(self.saves.clone());
+            }
             self.trace_stack("push");
             Ok(())
         } else {
@@ -294,6 +306,8 @@ impl State {
         }
         let Branch { pc, ix, nsave } = self.stack.pop().unwrap();
         self.nsave = nsave;
+        #[cfg(feature = "verif_hooks")]
+        self.shadow_check_pop();
         self.trace_stack("pop");
         (pc, ix)
     }
@@ -362,6 +376,8 @@ impl State {
     /// * Keep the first `oldsave` for each slot, discard the rest (multiple pushes might have
     ///   happened with saves to the same slot)
     fn backtrack_cut(&mut self, count: usize) {
+        #[cfg(feature = "verif_hooks")]
+        let _shadow_cut = self.shadow_begin_cut(count);
         if self.stack.len() == count {
             // no backtrack branches to discard, all good
             return;
@@ -395,6 +411,74 @@ impl State {
         self.stack.truncate(count);
         self.oldsave.truncate(oldsave_ix);
         self.nsave = oldsave_ix - oldsave_start;
+        #[cfg(feature = "verif_hooks")]
+        self.shadow_end_cut(count, _shadow_cut);
+    }
+
+    /// The part of `saves` that is meaningful: the slots, the auxiliary stack pointer and the
+    /// live entries of the auxiliary stack (entries above the pointer are garbage).
+    #[cfg(feature = "verif_hooks")]
+    fn live_saves(saves: &[usize], explicit_sp: usize) -> &[usize] {
+        if saves.len() > explicit_sp {
+            let sp = saves[explicit_sp];
+            if sp > explicit_sp && sp <= saves.len() {
+                return &saves[..sp];
+            }
+            return saves;
+        }
+        saves
+    }
+
+    #[cfg(feature = "verif_hooks")]
+    fn shadow_check_pop(&mut self) {
+        if let Some(shadow) = self.shadow.as_mut() {
+            let expected = shadow.pop();
+            let explicit_sp = self.explicit_sp;
+            let ok = match &expected {
+                Some(e) => {
+                    let e_live = Self::live_saves(e, explicit_sp);
+                    let live = Self::live_saves(&self.saves, explicit_sp);
+                    // a copy taken before the auxiliary stack was first used has no pointer yet:
+                    // then the pointer must be back at "empty"
+                    if e.len() <= explicit_sp {
+                        live[..e.len()] == e[..]
+                            && (self.saves.len() <= explicit_sp
+                                || self.saves[explicit_sp] == explicit_sp + 1)
+                    } else {
+                        live == e_live
+                    }
+                }
+                None => false,
+            };
+            let saves = &self.saves;
+            crate::verif::shadow_report(ok, || {
+                alloc::format!(
+                    "pop restored {:?} but the state at push time was {:?}",
+                    saves, expected
+                )
+            });
+        }
+    }
+
+    #[cfg(feature = "verif_hooks")]
+    fn shadow_begin_cut(&mut self, _count: usize) -> Option<Vec<usize>> {
+        self.shadow.as_ref().map(|_| self.saves.clone())
+    }
+
+    #[cfg(feature = "verif_hooks")]
+    fn shadow_end_cut(&mut self, count: usize, before: Option<Vec<usize>>) {
+        if let Some(shadow) = self.shadow.as_mut() {
+            shadow.truncate(count);
+            let ok = before.as_ref() == Some(&self.saves) && self.stack.len() == count;
+            let saves = &self.saves;
+            let len = self.stack.len();
+            crate::verif::shadow_report(ok, || {
+                alloc::format!(
+                    "cut to {} left {} branches, saves {:?} (before: {:?})",
+                    count, len, saves, before
+                )
+            });
+        }
     }
 
     #[inline]
@@ -439,6 +523,17 @@ pub(crate) fn run(
     options: &RegexOptions,
 ) -> Result<Option<Vec<usize>>> {
     let mut state = State::new(prog.n_saves, MAX_STACK, option_flags);
+    #[cfg(feature = "verif_hooks")]
+    let mut verif_guard = crate::verif::RunGuard::new();
+    #[cfg(feature = "verif_hooks")]
+    {
+        if crate::verif::max_stack_override() != 0 {
+            state.max_stack = crate::verif::max_stack_override();
+        }
+        if crate::verif::shadow_enabled() {
+            state.shadow = Some(Vec::new());
+        }
+    }
     let mut inner_slots: Vec<Option<NonMaxUsize>> = Vec::new();
     let look_matcher = LookMatcher::new();
     #[cfg(feature = "std")]
@@ -454,6 +549,13 @@ pub(crate) fn run(
             #[cfg(feature = "std")]
             if option_flags & OPTION_TRACE != 0 {
                 println!("{}\t{} {:?}", ix, pc, prog.body[pc]);
+            }
+            #[cfg(feature = "verif_hooks")]
+            {
+                verif_guard.on_depth(state.stack.len());
+                if verif_guard.on_insn(pc) {
+                    return Err(Error::RuntimeError(RuntimeError::BacktrackLimitExceeded));
+                }
             }
             match prog.body[pc] {
                 Insn::End => {
@@ -719,6 +821,10 @@ pub(crate) fn run(
         }
 
         backtrack_count += 1;
+        #[cfg(feature = "verif_hooks")]
+        {
+            verif_guard.backtracks += 1;
+        }
         if backtrack_count > options.backtrack_limit {
             return Err(Error::RuntimeError(RuntimeError::BacktrackLimitExceeded));
         }
@@ -726,6 +832,60 @@ pub(crate) fn run(
         let (newpc, newix) = state.pop();
         pc = newpc;
         ix = newix;
+    }
+}
+
+/// Public wrapper around the private backtracking state, for the external model checker.
+#[cfg(feature = "verif_hooks")]
+#[derive(Clone)]
+pub struct VmState(State);
+
+#[cfg(feature = "verif_hooks")]
+impl core::fmt::Debug for VmState {
+    fn fmt(&self, f: &mut Formatter<'_>) -> core::fmt::Result {
+        write!(f, "VmState{:?}", self.snapshot())
+    }
+}
+
+#[cfg(feature = "verif_hooks")]
+#[allow(missing_docs)]
+impl VmState {
+    pub fn new(n_saves: usize) -> VmState {
+        VmState(State::new(n_saves, MAX_STACK, 0))
+    }
+    pub fn push(&mut self, pc: usize, ix: usize) -> bool {
+        self.0.push(pc, ix).is_ok()
+    }
+    pub fn pop(&mut self) -> (usize, usize) {
+        self.0.pop()
+    }
+    pub fn save(&mut self, slot: usize, val: usize) {
+        self.0.save(slot, val)
+    }
+    pub fn get(&self, slot: usize) -> usize {
+        self.0.get(slot)
+    }
+    pub fn stack_push(&mut self, val: usize) {
+        self.0.stack_push(val)
+    }
+    pub fn stack_pop(&mut self) -> usize {
+        self.0.stack_pop()
+    }
+    pub fn backtrack_count(&self) -> usize {
+        self.0.backtrack_count()
+    }
+    pub fn backtrack_cut(&mut self, count: usize) {
+        self.0.backtrack_cut(count)
+    }
+    /// (saves, branches as (pc, ix, nsave), undo log as (slot, value), nsave)
+    #[allow(clippy::type_complexity)]
+    pub fn snapshot(&self) -> (Vec<usize>, Vec<(usize, usize, usize)>, Vec<(usize, usize)>, usize) {
+        (
+            self.0.saves.clone(),
+            self.0.stack.iter().map(|b| (b.pc, b.ix, b.nsave)).collect(),
+            self.0.oldsave.iter().map(|s| (s.slot, s.value)).collect(),
+            self.0.nsave,
+        )
     }
 }
 
